@@ -1499,6 +1499,10 @@ class Engine:
 
     def _q(self, world, op, vs, call, expect, prop, cmp=None):
         h = world.handles[op["h"]]
+        if h.lenient and op["op"] in ("q_edge_label", "q_edge_labels", "q_edges_at"):
+            # the caller asked for an edge to be listed twice on this automaton; how often these
+            # queries list it is then not a matter for any property
+            return "skipped:lenient"
         try:
             got = call(h.real)
         except Exception as e:
